@@ -29,6 +29,8 @@ type l3Case struct {
 	lastDO   bool
 	queried  bool
 	optTags  string
+	askSeq   int
+	anyOver  bool // some tree of this case ended over budget
 	// legitFail: some earlier reply of this case was a SERVFAIL not known to be the budget's; a
 	// failure served from the cache later may then be that one, legitimately shared
 	legitFail bool
@@ -59,8 +61,8 @@ func l3New(f []string) vlib.Res {
 	curL3 = nil
 	fam, n, v := f[2], vlib.Atoi(f[3]), vlib.Atoi(f[4])
 	o := sysOpts{Mode: f[5], OutCap: uint32(vlib.AtoU64(f[6])), IntCap: uint32(vlib.AtoU64(f[7])), SigCap: uint32(vlib.AtoU64(f[8])),
-		QMin: vlib.Atoi(f[9]), MaxDepth: vlib.Atoi(f[10]), DNSSEC: fam == "manysig"}
-	signed := fam == "manysig"
+		QMin: vlib.Atoi(f[9]), MaxDepth: vlib.Atoi(f[10]), DNSSEC: fam == "manysig" || fam == "nsec3"}
+	signed := o.DNSSEC
 	optTags := ""
 	if len(f) > 11 {
 		for _, op := range strings.Split(f[11], ",") {
@@ -71,6 +73,10 @@ func l3New(f []string) vlib.Res {
 				o.Failover = true
 			case "signed":
 				signed, o.DNSSEC = true, true
+			default:
+				if strings.HasPrefix(op, "n3=") {
+					o.N3Cap = uint32(vlib.AtoU64(op[3:]))
+				}
 			}
 			optTags += "," + op
 		}
@@ -202,6 +208,9 @@ func replyBrief(r qres) string {
 	ops := ""
 	if r.Snap != nil {
 		ops = fmt.Sprintf(" sigops=%d", r.Snap.SignatureChecks)
+		if r.Snap.NSEC3Hashes > 0 {
+			ops += fmt.Sprintf(" n3=%d", r.Snap.NSEC3Hashes)
+		}
 	}
 	return fmt.Sprintf("rcode=%d an=%d ad=%s ede=%s pkts=%d ms=%d%s", r.Msg.Rcode, len(r.Msg.Answer), vlib.B(r.Msg.AuthenticatedData), e, r.packets(), r.Elapsed.Milliseconds(), ops)
 }
@@ -237,6 +246,9 @@ func l3Query(f []string) vlib.Res {
 		c.legitFail = true
 	}
 	if v != "" {
+		return vlib.Res{Impl: replyBrief(r), Oracle: v, Tags: tags}
+	}
+	if v := c.judgeDenial("l3/query", r); v != "" {
 		return vlib.Res{Impl: replyBrief(r), Oracle: v, Tags: tags}
 	}
 	// the depth caps, seen from outside: a DNAME chain spends at most maxDnameDepth target
@@ -279,6 +291,55 @@ func clip(s string) string {
 		return s[:160] + "…"
 	}
 	return s
+}
+
+// l3 ask <name> <edns> <how: own|plain|warm>: a client query for an arbitrary name of the world.
+// warm = under a harness-owned generous ledger (history building). own / plain are judged like
+// `l3 query`, plus: in a world where every name resolves and every authority is healthy, a tree
+// whose own budget is intact must not be refused without a single upstream packet once other
+// trees of the case ran out of budget — their policy rejections are not evidence about anybody.
+func l3Ask(f []string) vlib.Res {
+	c := curL3
+	if c == nil {
+		return vlib.Res{Impl: "no-case", Oracle: "-"}
+	}
+	name, edns, how := dns.Fqdn(f[2]), f[3] == "t", f[4]
+	tags := "nt," + c.fam + "," + c.mode + c.optTags
+	if how == "warm" {
+		gen := c.main.Policy
+		gen.MaxOutboundQueries, gen.MaxInternalQueries = 100000, 100000
+		r := c.main.queryWith(name, dns.TypeA, edns, false, "10.8.8.8:8888", true, &gen)
+		if v := judgeReply("l3/ask", c.main, r, edns); v != "" {
+			return vlib.Res{Impl: replyBrief(r), Oracle: v, Tags: tags}
+		}
+		return vlib.Res{Impl: replyBrief(r), Oracle: "ok", Tags: tags}
+	}
+	c.askSeq++
+	r := c.main.query(name, dns.TypeA, edns, edns && c.topo.N3, fmt.Sprintf("10.6.%d.7:4000", c.askSeq%250), how == "own")
+	if v := judgeReply("l3/ask", c.main, r, edns); v != "" {
+		return vlib.Res{Impl: replyBrief(r), Oracle: v, Tags: tags}
+	}
+	v, over := judgeBudget("l3/ask", c.main, r, edns)
+	if v == "" {
+		v = c.judgeDenial("l3/ask", r)
+	}
+	if v != "" {
+		return vlib.Res{Impl: replyBrief(r), Oracle: v, Tags: tags}
+	}
+	if over {
+		c.anyOver = true
+		tags += ",overbudget"
+	} else if r.Msg.Rcode == dns.RcodeServerFailure {
+		// every authority of this world is healthy and every name resolves: a SERVFAIL that is not this
+		// tree's own budget can only come from state other trees left behind
+		// (a non-EDNS client on a server-owned ledger cannot be told why: not judged)
+		if c.anyOver && c.topo.Honest && c.topo.Answerable && (edns || how == "own") {
+			_, text, _ := edeOf(r.Msg)
+			return vlib.Res{Impl: replyBrief(r), Oracle: fmt.Sprintf("FAIL sig=l3/ask/healthy-authority-refused-after-other-trees-ran-out-of-budget reply=%q", text), Tags: tags}
+		}
+		c.legitFail = true
+	}
+	return vlib.Res{Impl: replyBrief(r), Oracle: "ok", Tags: tags}
 }
 
 // l3 warm: the topology's query under a harness-owned ledger with generous caps (history building:
